@@ -2,7 +2,9 @@ package g_index
 
 import (
 	"fmt"
+	"os"
 	"sort"
+	"strconv"
 	"strings"
 	"sync"
 
@@ -49,6 +51,9 @@ func (g *gixReporter) Violation(class string, features map[string]string, witnes
 	n := g.seen[k]
 	g.mu.Unlock()
 	g.r.Event("violation:"+k, 1)
+	if only := os.Getenv("GIX_ONLY"); only != "" && !strings.Contains(k, only) {
+		return // debugging aid: look at one class at a time
+	}
 	if n <= g.per {
 		g.r.Violation(class, features, witness)
 	}
@@ -62,4 +67,24 @@ func (g *gixReporter) Count() int {
 		n += v
 	}
 	return n
+}
+
+// gixN is r.N with a debugging override (GIX_CASES=<n>) used only while tuning budgets.
+func gixN(r *vkit.Run, quick, thorough int) int {
+	if v, err := strconv.Atoi(os.Getenv("GIX_CASES")); err == nil && v > 0 {
+		return v
+	}
+	return r.N(quick, thorough)
+}
+
+// gixTempDir creates a scratch directory, on tmpfs when the machine has one: the crash model of
+// these checks is process death (page cache survives), so fsync durability is not observed and
+// need not be paid for (4 ms per fsync on the sandbox's ext4 against 3 µs on tmpfs).
+func gixTempDir(prefix string) (string, error) {
+	if fi, err := os.Stat("/dev/shm"); err == nil && fi.IsDir() {
+		if d, err := os.MkdirTemp("/dev/shm", prefix); err == nil {
+			return d, nil
+		}
+	}
+	return os.MkdirTemp("", prefix)
 }
